@@ -310,6 +310,7 @@ func checkC19(c *Ctx) string {
 				"no break of the search loop is guarded by a test that is true exactly for t <= asof (evaluated for t=5, asof=4,5,6)")
 		}
 	}
+	checkChunkSearchResets(c, "C19.3 K18 pattern searches use a partial chunk only where they start")
 	return "Small claim for C19: ReadTran.Asof is evaluated per argument class (0, -1, +1, a time): each reaches exactly its own lookup; the transaction's meta, as-of time and offset are replaced together from one state value; " +
 		"every state search assembles the returned state from the one validated record, never returns a state on the invalid edge, NextState searches from beyond the current state, and stateAsof leaves its loop with a result exactly on t <= asof. " +
 		"The start of the backward scans is decided under C05.7. NOT decided: that the state found is the most recent one at or before the time (ordering of run-time timestamps), caching in stateCache."
